@@ -12,6 +12,8 @@ Protocol (one observation per line; identical lines go to the Lean driver Operon
   set gate|cache|ttl|breaker|thr|tmo <value> | set agents 0             -> - ; <stats>
       a public attribute of the LIVE loop is re-assigned (gate_logic, enable_cache, cache_ttl, enable_circuit_breaker,
       failure_threshold, recovery_timeout; `agents`: fresh stub objects, same names, to loop.executor / loop.assessor)
+  set silent 0|1                                                        -> - ; <stats>     loop.silent re-assigned: console
+      output on / off (the harness swallows stdout); no observation may depend on it
   set onblock|onpermit none|ok|raise                                    -> - ; <stats>
       loop.on_block / loop.on_permit re-assigned: None, a callable that returns, a callable that raises HookError.
       When a callback raises, run() raises; the observation is then the result the callback was GIVEN followed by
@@ -222,9 +224,7 @@ class Impl:
         frame = []
         self.frames.append(frame)
         try:
-            with (contextlib.nullcontext() if threading.current_thread() is not threading.main_thread()
-                  else contextlib.redirect_stdout(io.StringIO())):
-                r = self.loop.run(text)
+            r = self.loop.run(text)          # (stdout is redirected by line(): sys.stdout is process-wide)
         except HookError:
             given = frame[-1][1] if frame else "?"
             return f"{given} !HookError"
@@ -351,6 +351,10 @@ class Impl:
         return " | ".join("-" if r is None else r for r in replies) + " ; " + self.stats()
 
     def line(self, line: str) -> str:
+        with contextlib.redirect_stdout(io.StringIO()):     # `set silent 0`: the loop prints; nothing may depend on it
+            return self._line(line)
+
+    def _line(self, line: str) -> str:
         t = line.split()
         if not t:
             return "bad-op"
@@ -391,6 +395,8 @@ class Impl:
                 lp.failure_threshold = int(v)
             elif k == "tmo":
                 lp.recovery_timeout = _dt.timedelta(microseconds=int(v))
+            elif k == "silent":
+                lp.silent = v == "1"
             elif k in ("onblock", "onpermit"):
                 if v not in ("none", "ok", "raise"):
                     return "bad-op"
